@@ -534,6 +534,17 @@ def run(ctx):
             for compete in (False, True):
                 i += 1
                 djobs.append((os.path.join(basedir, "w%d" % i), ydict, path, key, lang, name, b, compete, base_blocks))
+    # a C-language library: functions that would be bound directly get a wrapper because the user supplied its body
+    ydict_c = yaml.safe_load(libs.SMALL_C)
+    outc, rc_ = gen(os.path.join(basedir, "base_c"), ydict_c, {}, [])
+    if rc_.status != "ok":
+        raise RuntimeError("baseline generation failed: %s" % rc_.msg)
+    base_blocks_c = tree_blocks(outc)
+    for path, key, lang, name in [((0,), "c", "c", "function.c_add"), ((0,), "f", "f", "function.c_add"), ((0,), "py", "py", "function.c_add"),
+                                  ((2,), "c", "c", "function.c_name"), ((3,), "c", "c", "function.c_sum")]:
+        for b in (bodies if not quick else bodies[:3]):
+            i += 1
+            djobs.append((os.path.join(basedir, "w%d" % i), ydict_c, path, key, lang, name, b, False, base_blocks_c))
     res += isolate.pmap(decl_case, djobs, W)
     tjobs = []
     for lang in ("c", "f", "py", "lua"):
